@@ -78,7 +78,7 @@ Theorem c13_wakeup_delivery : forall pw s b, reach pw (s, b) -> b_crashed b = fa
 Proof. exact wakeups_reply. Qed.
 Theorem c13_connect_disconnect_silent : forall s b e, b_crashed b = false ->
   (match e with EConnect _ | EDisconnect _ => True | _ => False end) ->
-  b_out (snd (step (s, b) e)) = b_out b /\ b_blk (snd (step (s, b) e)) = b_blk b /\ b_reg (snd (step (s, b) e)) = b_reg b.
+  b_out (snd (step (s, b) e)) = b_out b /\ b_blk (snd (step (s, b) e)) = b_blk b /\ b_wake (snd (step (s, b) e)) = b_wake b.
 Proof. exact connect_disconnect_silent. Qed.
 (** a blocking call that is not answered at once is Blocked with deadline = arrival + timeout,
     and with no deadline when the timeout is 0 ("forever") *)
